@@ -15,6 +15,7 @@ theorem CInv.congr {c : CState} {n : Nat} {U : Nat → List Nat} {L L' : List AI
     intro j _
     rw [hh]
   fracs := fun g cg hcg i => by rw [h.fracs g cg hcg i, hh]
+  nodup := h.nodup
 
 theorem PC.congr {U : Nat → List Nat} {tag n free : Nat} {c : CState} {L L' : List AIdx}
     (h : PC U tag n free c L) (hp : L.Perm L') : PC U tag n free c L' := by
@@ -451,7 +452,16 @@ theorem init_concise {s : State} (hfresh : ∀ p ∈ s.pools, p.Fresh) (hlive : 
   cases p with
   | empty => exact .inl ⟨rfl, rfl⟩
   | indices full g =>
-    refine .inr (.inl ⟨.inl rfl, ?_, ?_, ?_⟩)
+    refine .inr (.inl ⟨.inl rfl, ?_, ?_, ?_, ?_⟩)
+    rotate_right
+    · intro gi cg hcg
+      cases gi with
+      | zero =>
+        simp only [Pool.conciseState, List.getElem?_cons_zero, Option.some.injEq] at hcg
+        subst hcg
+        have := (hf.1 g (by simp [Pool.groupsOf])).1
+        simp [this, KeysNodup]
+      | succ k => simp [Pool.conciseState] at hcg
     · rfl
     · intro gi cg hcg
       cases gi with
@@ -469,7 +479,17 @@ theorem init_concise {s : State} (hfresh : ∀ p ∈ s.pools, p.Fresh) (hlive : 
         simp [this, fracOf]
       | succ k => simp [Pool.conciseState] at hcg
   | groups full gs =>
-    refine .inr (.inl ⟨.inr rfl, ?_, ?_, ?_⟩)
+    refine .inr (.inl ⟨.inr rfl, ?_, ?_, ?_, ?_⟩)
+    rotate_right
+    · intro gi cg hcg
+      simp only [Pool.conciseState, List.getElem?_map] at hcg
+      cases hg : gs[gi]? with
+      | none => simp [hg] at hcg
+      | some g =>
+        simp only [hg, Option.map_some, Option.some.injEq] at hcg
+        subst hcg
+        have := (hf.1 g (by simp only [Pool.groupsOf]; exact List.mem_of_getElem? hg)).1
+        simp [this, KeysNodup]
     · simp [Pool.conciseState, Pool.ngroups, Pool.groupsOf]
     · intro gi cg hcg
       simp only [Pool.conciseState, List.getElem?_map] at hcg
@@ -489,7 +509,10 @@ theorem init_concise {s : State} (hfresh : ∀ p ∈ s.pools, p.Fresh) (hlive : 
         have := (hf.1 g (by simp only [Pool.groupsOf]; exact List.mem_of_getElem? hg)).1
         simp [this, fracOf]
   | sum full free =>
-    refine .inr (.inr ⟨rfl, _, rfl, rfl, ?_⟩)
+    refine .inr (.inr ⟨rfl, _, rfl, rfl, ?_, ?_⟩)
+    rotate_right
+    · show KeysNodup (if 0 < free % FPU then [(0, free % FPU)] else [])
+      split <;> simp [KeysNodup]
     intro i
     show fracOf (if 0 < free % FPU then [(0, free % FPU)] else []) i = _
     by_cases hpos : 0 < free % FPU
